@@ -178,6 +178,31 @@ template <bool LA, bool RA> static void jacobian_mv(int lf, int vf, int m, int k
   } catch (const std::exception& e) { std::printf("J %s vector:%s %s %d %d 1 -1 EXC:%s\n", MFORMS[lf], VFORMS[vf], act, m, k, what_of(e).c_str()); }
 }
 
+// band matrix (passive) times an active vector of every form, and the same with the transposed (column-major) band: the
+// Jacobian of each result element with respect to the vector's parent elements against the band's own element values
+template <class S> static void jacobian_band_mv(const char* name, int vf, int n, int salt, bool transposed) {
+  std::printf("B active matmul %s%s x vector:%s (right active) %d\n", name, transposed ? ".T()" : "", VFORMS[vf], n); std::fflush(stdout);
+  try {
+    Stack stack;
+    S sm(n); Matrix dense(n, n); dense = 0.0;
+    for (int i = 0; i < n; ++i) for (int j = 0; j < n; ++j) { double v = 1.0 + ((i * 7 + j * 3 + salt * 5) % 9); try { sm(i, j) = v; } catch (const std::exception&) { } }   // outside the band: no lvalue
+    dense = sm;
+    VHold vh; make_vector(vf, n, 2, vh);
+    aVector Vp(vh.parent.size()); Vp = vh.parent;
+    aVector V;
+    switch (vf) { case 1: V >>= Vp(stride(0, 2 * n - 2, 2)); break; case 2: V >>= Vp(stride(n - 1, 0, -1)); break; case 3: V >>= Vp(range(2, n + 1)); break;
+                  case 4: V >>= Vp(stride(3 * n - 3, 0, -3)); break; default: V >>= Vp; }
+    stack.new_recording();
+    aVector c = transposed ? aVector(sm.T() ** V) : aVector(sm ** V);
+    stack.independent(V); stack.dependent(c);
+    std::vector<double> jac(n * n, -7.0);
+    stack.jacobian(&jac[0]);
+    double d = 0;
+    for (int i = 0; i < n; ++i) for (int q = 0; q < n; ++q) { double e = transposed ? dense(q, i) : dense(i, q); d = std::max(d, std::fabs(jac[q * n + i] - e)); }
+    std::printf("J %s%s vector:%s right %d %d 1 %g %s\n", name, transposed ? ".T()" : "", VFORMS[vf], n, n, d, d == 0 ? "ok" : "DIFF");
+  } catch (const std::exception& e) { std::printf("J %s%s vector:%s right %d %d 1 -1 EXC:%s\n", name, transposed ? ".T()" : "", VFORMS[vf], n, n, what_of(e).c_str()); }
+}
+
 int main(int argc, char** argv) {
   int sizes[][3] = { {1, 1, 1}, {2, 3, 1}, {1, 2, 3}, {3, 1, 2}, {2, 2, 2}, {3, 4, 5}, {5, 3, 2} };
   int nsz = argc > 1 ? std::atoi(argv[1]) : 7;
@@ -220,6 +245,11 @@ int main(int argc, char** argv) {
   int af[] = {0, 1, 2, 7, 8};
   for (int a = 0; a < 5; ++a) for (int b = 0; b < 5; ++b) {
     jacobian_mm<true, true>(af[a], af[b], 2, 3, 2); jacobian_mm<true, false>(af[a], af[b], 3, 2, 2); jacobian_mm<false, true>(af[a], af[b], 2, 2, 3);
+  }
+  for (int vf = 0; vf < 5; ++vf) for (int n = 3; n <= 5; ++n) for (int t = 0; t < 2; ++t) {
+    jacobian_band_mv<TridiagMatrix>("TridiagMatrix", vf, n, 6, t);
+    jacobian_band_mv<SpecialMatrix<double, internal::BandEngine<ROW_MAJOR, 1, 2>, false> >("Band<row,1,2>", vf, n, 8, t);
+    jacobian_band_mv<SpecialMatrix<double, internal::BandEngine<ROW_MAJOR, 2, 0>, false> >("Band<row,2,0>", vf, n, 9, t);
   }
   int avf[] = {0, 1, 3}; int amf[] = {0, 1, 2, 7};
   for (int a = 0; a < 4; ++a) for (int b = 0; b < 3; ++b) { jacobian_mv<true, true>(amf[a], avf[b], 2, 3); jacobian_mv<true, false>(amf[a], avf[b], 3, 2); jacobian_mv<false, true>(amf[a], avf[b], 2, 2); }
